@@ -12,7 +12,7 @@ var hostileValues = []string{"", " ", "\t", "\n", "\x00", ":", "/", "//", "?", "
 	"%41", "%", "%zz", "%00", "..", ".", "%2e", "file", "file:", "http", "https:", "a", "C|", "C:", "localhost", "0", "80", "443", "65536", "[::1]", "1.2.3.4", "0x7f.1", "xn--", "-1"}
 
 var setterPools = map[string][]string{
-	"protocol": {"http", "https", "ftp", "ws", "wss", "file", "a", "b", "foo", "HTTP", "hTTps:", "http:", "https://x", "file:", "a:b", "a+b", "a-b.c", "1a", "+a", "é", "a é", "", ":", "a:", "http\n", "ht\ttp", " http", "http ", "gopher", "javascript", "mailto", "data", "wss:", "ws\x00"},
+	"protocol": {"http", "https", "ftp", "ws", "wss", "file", "a", "b", "foo", "HTTP", "hTTps:", "http:", "https://x", "file:", "a:b", "a+b", "a-b.c", "1a", "+a", "é", "a é", "", ":", "a:", "http\n", "ht\ttp", " http", "http ", "gopher", "javascript", "mailto", "data", "wss:", "ws\x00", "postgres", "x", "a-very.long+scheme-name9", "POSTGRES:"},
 	"username": {"", "u", "user", "u:p", "u@v", "u/v", "u?v", "u#v", "u v", "ü", "%41", "%", "%zz", "\x00", "\x7f", "a\tb", "a\nb", "'\"<>`{}", "[]^|\\", ";=", "~-._!$&()*+,", "\xff"},
 	"password": {"", "p", "pass", "p:q", "p@q", "p/q", "p?q", "p#q", "p q", "π", "%41", "%", "%zz", "\x00", "\x7f", "a\tb", "a\nb", "'\"<>`{}", "[]^|\\", ";=", "~-._!$&()*+,", "\xff"},
 	"host": {"", "h", "example.com", "EXAMPLE.com", "h:80", "h:443", "h:8080", "h:", "h:0", "h:65536", "h:8a", "h:80/x", "h/x", "h?x", "h#x", "h\\x", "h@x", ":80", "u@h", "u:p@h:1", "[::1]", "[::1]:80", "[::1]:443", "[[::1]", "[::1[]", "[::1]]", "[::1", "::1]",
